@@ -13,7 +13,10 @@ META = {
     'props': 'Props/C10.v',
     'claimed': True,
     'level_text': (
-        'Proof (partial): 18 Coq theorems about an executable model of GeophiresXResult, all closed under the global context. For EVERY '
+        'Proof (partial): 31 Coq theorems about an executable model of GeophiresXResult, all closed under the global context (round 2 adds '
+        '_get_profile_lines, the header column count, the carbon-revenue view, _parse_number on every printed fixed-point numeral with or '
+        'without thousands separators, string-valued fields, f.readlines, and the soundness of the indexed field search the kernel check '
+        'runs). For EVERY '
         'label, indentation, padding (incl. a value that overflows its column), blank-free value token (negative, huge, 1,234.5, N/A) '
         'and unit, a printed scalar line is read back as exactly that token and unit (C10_roundtrip_unit/_bare, C10_line_is_found, '
         'C10_equal_sign_partial); for every number of rows and columns the add-on style tables and the production-profile rows come '
@@ -29,8 +32,10 @@ META = {
         'behaviour and the csv rows inside Coq (vm_compute); the property itself is evaluated on the real client against an '
         'independent tokenisation of each report, under PYTHONHASHSEED 0/1/2, and the .json quantities (every equally-named report line, plus every '
         'figure of the S-DAC-GT and add-on sections and profiles through a reviewed label/column -> entry map; a missing entry is a violation) are '
-        'compared with the printed figures by the Coq checker json_agrees (sound: C10_json_rounds). Only tied, not proved: header reconstruction of the two '
-        'production profiles, the carbon-revenue view, _parse_number against Python float().'),
+        'compared with the printed figures by the Coq checker json_agrees (sound: C10_json_rounds). Only tied, not proved: the titles (not the count) rebuilt by the '
+        'header reconstruction, _parse_number on exponent forms and against Python float() rounding; _parse_number itself is compared token by '
+        'token with the real method on every writer format and on malformed tokens. HipRaResult (one regular expression, no shared code) is '
+        'checked against the tokenisation only.'),
     'level_note': (
         'Trusted: Coq kernel + vm_compute; the Python harness (runs the simulator and the client, the independent tokeniser, the '
         'literals handed to Coq); Python float()/int()/csv/re/str semantics are modelled by hand for ASCII text (reports are ASCII); '
